@@ -4,6 +4,7 @@ import (
 	"bytes"
 	"fmt"
 
+	"github.com/akalin/gopar/gf2p16"
 	"github.com/akalin/gopar/rsec16"
 
 	"verifh/core"
@@ -26,6 +27,7 @@ type c07Case struct {
 	MissD []int  `json:"missd,omitempty"`  // explicit: missing data shards
 	AvailP []int `json:"availp,omitempty"` // explicit: available parity shards
 	K     int    `json:"k,omitempty"`      // tight: number of missing data shards = number of available parity shards
+	NoSSSE3 bool `json:"nossse3,omitempty"` // run with the SSSE3 dispatch flag forced off
 }
 
 func c07NewCoder(kind string, d, p, g int) (rsec16.Coder, error) {
@@ -171,6 +173,8 @@ type c07CoderKey struct {
 	d, p, g int
 }
 
+var _ = gf2p16.T(0)
+
 var c07Cache = map[c07CoderKey]rsec16.Coder{}
 
 func c07Coder(r *core.Rec, kind string, d, p, g int) (rsec16.Coder, bool) {
@@ -265,10 +269,24 @@ func c07Gen(g *core.Gen) {
 		}
 	}
 	g.Emit(&c07Case{Kind: "limits"})
+	// a slice of the small grid on the non-SSSE3 dispatch path (shards long enough for the bulk kernels)
+	for _, kind := range []string{"cauchy", "vandermonde"} {
+		for _, dp := range [][2]int{{3, 2}, {5, 4}, {6, 5}} {
+			for _, l := range []int{2, 30, 32, 34, 66, 130} {
+				for _, gg := range []int{1, 3} {
+					g.Emit(&c07Case{Kind: "small", Coder: kind, D: dp[0], P: dp[1], Len: l, G: gg, NoSSSE3: true})
+				}
+			}
+		}
+	}
 }
 
 func c07Run(ci interface{}, r *core.Rec) {
 	c := ci.(*c07Case)
+	if c.NoSSSE3 {
+		old := gf2p16.VerifSetUseSSSE3(false)
+		defer gf2p16.VerifSetUseSSSE3(old)
+	}
 	switch c.Kind {
 	case "small":
 		coder, ok := c07Coder(r, c.Coder, c.D, c.P, c.G)
